@@ -144,7 +144,7 @@ fn out_value(ctx: &mut Ctx, v: &Int, text_radices: &[u32], digit_radices: &[u32]
     let args = || vec![format!("v={}", v.to_hex())];
     for &r in text_radices {
         // BigInt text
-        let got = call(ctx, || x.to_str_radix(r));
+        let got = call_str(ctx, "BigInt::to_str_radix", || x.to_str_radix(r));
         ctx.compared(1);
         match got {
             Out::Ret(s) => {
@@ -166,7 +166,7 @@ fn out_value(ctx: &mut Ctx, v: &Int, text_radices: &[u32], digit_radices: &[u32]
             Out::Panic(m) => ctx.viol(format!("BigInt to_str_radix({}) v={}", r, v.to_hex()), "unexpected panic", args(), "text".into(), m),
         }
         if !v.neg {
-            let got = call(ctx, || u.to_str_radix(r));
+            let got = call_str(ctx, "BigUint::to_str_radix", || u.to_str_radix(r));
             ctx.compared(1);
             match got {
                 Out::Ret(s) => {
@@ -252,18 +252,28 @@ fn out_value(ctx: &mut Ctx, v: &Int, text_radices: &[u32], digit_radices: &[u32]
     }
 }
 
+/// one formatter table, produced under a panic guard and with every String validated as UTF-8
+fn tab(ctx: &mut Ctx, name: &str, v: &Int, f: impl FnOnce() -> Vec<String>) -> Vec<String> {
+    match guard(f) {
+        Ok(t) => clean_strs(ctx, name, t),
+        Err(m) => {
+            ctx.viol(format!("{} formatter panic v={}", name, v.to_hex()), "formatter panicked", vec![format!("v={}", v.to_hex())], "formatted text".into(), m);
+            vec![String::new(); SPECS.len()]
+        }
+    }
+}
 fn fmt_value(ctx: &mut Ctx, v: &Int) {
     ctx.case();
     ctx.nontrivial(1);
     let x = bi_int(v);
     let u = bu_nat(&v.mag);
     let tabs_i: [(&str, Vec<String>, u32, bool, &str); 6] = [
-        ("Display", fmt_table::fmt_display(&x), 10, false, ""),
-        ("Binary", fmt_table::fmt_binary(&x), 2, false, "0b"),
-        ("Octal", fmt_table::fmt_octal(&x), 8, false, "0o"),
-        ("LowerHex", fmt_table::fmt_lower_hex(&x), 16, false, "0x"),
-        ("UpperHex", fmt_table::fmt_upper_hex(&x), 16, true, "0x"),
-        ("Debug", fmt_table::fmt_debug(&x), 10, false, ""),
+        ("Display", tab(ctx, "BigInt Display", v, || fmt_table::fmt_display(&x)), 10, false, ""),
+        ("Binary", tab(ctx, "BigInt Binary", v, || fmt_table::fmt_binary(&x)), 2, false, "0b"),
+        ("Octal", tab(ctx, "BigInt Octal", v, || fmt_table::fmt_octal(&x)), 8, false, "0o"),
+        ("LowerHex", tab(ctx, "BigInt LowerHex", v, || fmt_table::fmt_lower_hex(&x)), 16, false, "0x"),
+        ("UpperHex", tab(ctx, "BigInt UpperHex", v, || fmt_table::fmt_upper_hex(&x)), 16, true, "0x"),
+        ("Debug", tab(ctx, "BigInt Debug", v, || fmt_table::fmt_debug(&x)), 10, false, ""),
     ];
     ctx.calls(6 * SPECS.len() as u64);
     for (name, tab, radix, upper, prefix) in tabs_i.iter() {
@@ -278,12 +288,12 @@ fn fmt_value(ctx: &mut Ctx, v: &Int) {
     }
     if !v.neg {
         let tabs_u: [(&str, Vec<String>, u32, bool, &str); 6] = [
-            ("Display", fmt_table::fmt_display(&u), 10, false, ""),
-            ("Binary", fmt_table::fmt_binary(&u), 2, false, "0b"),
-            ("Octal", fmt_table::fmt_octal(&u), 8, false, "0o"),
-            ("LowerHex", fmt_table::fmt_lower_hex(&u), 16, false, "0x"),
-            ("UpperHex", fmt_table::fmt_upper_hex(&u), 16, true, "0x"),
-            ("Debug", fmt_table::fmt_debug(&u), 10, false, ""),
+            ("Display", tab(ctx, "BigUint Display", v, || fmt_table::fmt_display(&u)), 10, false, ""),
+            ("Binary", tab(ctx, "BigUint Binary", v, || fmt_table::fmt_binary(&u)), 2, false, "0b"),
+            ("Octal", tab(ctx, "BigUint Octal", v, || fmt_table::fmt_octal(&u)), 8, false, "0o"),
+            ("LowerHex", tab(ctx, "BigUint LowerHex", v, || fmt_table::fmt_lower_hex(&u)), 16, false, "0x"),
+            ("UpperHex", tab(ctx, "BigUint UpperHex", v, || fmt_table::fmt_upper_hex(&u)), 16, true, "0x"),
+            ("Debug", tab(ctx, "BigUint Debug", v, || fmt_table::fmt_debug(&u)), 10, false, ""),
         ];
         ctx.calls(6 * SPECS.len() as u64);
         for (name, tab, radix, upper, prefix) in tabs_u.iter() {
